@@ -1198,7 +1198,7 @@ void Lexer::lexCharacterConstant(SyntaxToken* tk, unsigned char prefix)
         tk->syntaxK_ = SyntaxKind::CharacterConstant_u_Token;
     else {
         tk->syntaxK_ = SyntaxKind::CharacterConstantToken;
-        prefixSize = 0;
+        prefixSize = prefix == '8' ? 2 : 0;
     }
 
     lexUntilQuote(tk, '\'', prefixSize);
@@ -1218,8 +1218,10 @@ void Lexer::lexStringLiteral(SyntaxToken* tk, unsigned char prefix)
         tk->syntaxK_ = SyntaxKind::StringLiteral_U_Token;
     else if (prefix == 'u')
         tk->syntaxK_ = SyntaxKind::StringLiteral_u_Token;
-    else if (prefix == '8')
+    else if (prefix == '8') {
         tk->syntaxK_ = SyntaxKind::StringLiteral_u8_Token;
+        prefixSize = 2;
+    }
     else {
         tk->syntaxK_ = SyntaxKind::StringLiteralToken;
         prefixSize = 0;
@@ -1345,6 +1347,8 @@ void Lexer::lexBackslash(SyntaxKind syntaxK)
 
 void Lexer::lexUntilQuote(SyntaxToken* tk, unsigned char quote, unsigned int accLeng)
 {
+    // The lexeme starts at the encoding prefix (of accLeng characters), if
+    // any, right before the opening quote.
     const char* yytext = yytext_ - 1;
     yytext -= accLeng;
 
@@ -1357,11 +1361,12 @@ void Lexer::lexUntilQuote(SyntaxToken* tk, unsigned char quote, unsigned int acc
             yyinput();
     }
 
-    int yyleng = yytext_ - yytext + 1;
-    yyleng += accLeng;
-
     if (yychar_ == quote)
         yyinput();
+
+    // ... and ends with the closing quote (or where the line/text ends, if
+    // the literal is unterminated).
+    int yyleng = yytext_ - yytext;
 
     if (quote == '\'')
         tk->character_ = tree_->findOrInsertCharacterConstant(yytext, yyleng);
